@@ -77,6 +77,8 @@ def run_cases(ctx, cases):
 
 
 def run(ctx):
+    import C15ext                   # value semantics, nwr_array, border ids, real GC thresholds (see C15ext.py), run after the base part
+    C15ext.start_prebuild()         # its (cold) harness builds run beside the TLC runs below
     cases = gen_cases(ctx)
     run_cases(ctx, cases)
     ctx.traces = len(cases)
@@ -98,11 +100,15 @@ def run(ctx):
                        "harness embeds model ids border-preservingly: first/last byte of a chunk, last chunk of the uint32 range, "
                        "ids beyond 2^32 sharing their low word",
                        "ItemStash automatic GC threshold lowered to 2 removals by the OSMIUM_VERIF_STASH_GC_MIN hook in the quick tier"]
+    C15ext.run_part(ctx)            # adds to ctx.traces / evaluations / nontrivial / assumptions; violations "ext:..."
 
 
 def replay(ctx, path):
     with open(path) as fh:
         d = json.load(fh)
+    if d["case"].get("ext"):
+        import C15ext
+        return C15ext.replay_part(ctx, d)
     c = d["case"]["case"]
     run_cases(ctx, [c])
     ctx.evaluations = len(c["steps"])
